@@ -5,7 +5,9 @@ This module: the VALIDATION of the table against the running code — a stress h
 detector (testing, labelled so in the evidence), and the evidence about the table."""
 import os
 import re
+import shutil
 import subprocess
+import tempfile
 from concurrent.futures import ThreadPoolExecutor
 
 import lib
@@ -42,7 +44,9 @@ def build_race():
 
 
 def run_harness(binary, mode, iters, seed, timeout):
-    env = dict(os.environ, GORACE=GORACE)
+    # a private TMPDIR: the race detector's hard exit (exitcode=66) skips the harness's own clean-up
+    tmp = tempfile.mkdtemp(prefix="c19-", dir=lib.WORK)
+    env = dict(os.environ, GORACE=GORACE, TMPDIR=tmp)
     cmd = [binary, "race", mode, str(iters), str(seed), lib.REPO]
     try:
         p = subprocess.run(cmd, stdout=subprocess.PIPE, stderr=subprocess.STDOUT, text=True, env=env, timeout=timeout)
@@ -50,6 +54,8 @@ def run_harness(binary, mode, iters, seed, timeout):
     except subprocess.TimeoutExpired as e:
         out = e.stdout if isinstance(e.stdout, str) else (e.stdout or b"").decode("utf-8", "replace")
         return 124, out + "\nTIMEOUT after %ds (deadlock?)" % timeout
+    finally:
+        shutil.rmtree(tmp, ignore_errors=True)
 
 
 def classify(rc, out):
